@@ -138,7 +138,7 @@ func c10Check(c *explore.Ctx, base *explore.Base, sc *explore.Scenario) func(r *
 			if e.Err == "" || e.Ret > closeCall {
 				continue
 			}
-			if e.Op.Kind == explore.Compact && e.Err == "database is busy" {
+			if e.Op.Kind == explore.Compact && (compactRefused(r, e) || sc.Worker) {
 				continue
 			}
 			if e.Op.Kind == explore.FileSize {
